@@ -22,9 +22,12 @@ rm $WT/$place
 pk=$(git -C $WT diff --name-only | xargs -n1 dirname | sort -u | sed 's#^#./#')
 (cd $WT && go test -vet=off -count=1 $pk 2>&1 | tail -5)
 git -C /repo worktree remove --force $WT
-echo "== checks against the change in /repo"
-git -C /repo apply $SD/patch.diff || { echo "cannot apply to /repo"; exit 3; }
+echo "== checks against the change (scratch copy of the repository: VERIF_REPO)"
+SR=/tmp/seedrepo
+[ -d $SR ] || git -C /repo worktree add --detach $SR HEAD -q
+git -C $SR checkout -q --detach $(git -C /repo rev-parse HEAD) && git -C $SR checkout -- . && git -C $SR clean -fdq
+git -C $SR apply $SD/patch.diff || { echo "cannot apply to the scratch repository"; exit 3; }
 for c in "$@"; do
-  /verif/bin/symgo check $c quick 2>/dev/null | grep -v "^KNOWN-FINDING" | head -6; echo "exit($c)=${PIPESTATUS[0]}"
+  VERIF_REPO=$SR /verif/bin/symgo check $c quick 2>/dev/null | grep -v "^KNOWN-FINDING" | head -6; echo "exit($c)=${PIPESTATUS[0]}"
 done
-git -C /repo checkout -- . ; git -C /repo status --short | head -3
+git -C $SR checkout -- . ; git -C $SR status --short | head -3
